@@ -162,13 +162,22 @@ def run_case(case: dict, driver, variant: str = "1"):
         return None
 
     registered = list(case.get("cbs", []))      # monitor's own record of the registrations
+
+    def rogue() -> None:
+        violate("sched:callers-list-aliased", "a function the caller put into its own list after the scheduler "
+                "was constructed - never registered - was run as a callback")
     # ---- construction ----
     e0 = clk.peek()
     clk.begin([F(x) for x in case.get("ctor", [])])
     obj = None
     try:
         if kind == "time":
-            obj = sched_mod.TimeIntervalScheduler(float(interval), [cb(i) for i in registered])
+            # the caller's own list object: what the caller does with it afterwards (reuse for another
+            # scheduler, clear it) must not change what is registered here
+            given = [cb(i) for i in registered]
+            obj = sched_mod.TimeIntervalScheduler(float(interval), given)
+            given.append(rogue)
+            del given[:-1]
         else:
             obj = PeriodicSaveCondition(float(interval))
         out = "ok"
@@ -365,7 +374,10 @@ def run_step_case(case: dict, driver):
     registered = list(case.get("cbs", []))
     obj = None
     try:
-        obj = sched_mod.StepIntervalScheduler(n, [cb(i) for i in registered])
+        given = [cb(i) for i in registered]
+        obj = sched_mod.StepIntervalScheduler(n, given)
+        given.append(lambda: log.append(-1))     # the caller goes on using its own list: never registered
+        del given[:-1]
         out = "ok"
     except ValueError:
         out = "err ValueError"
